@@ -138,6 +138,7 @@ SCEN = [
     {"name": "nl", "start": "nl", "gs": 550.0, "turn": 0},
     {"name": "polar", "start": (86.0, 10.0), "trk": 45.0, "gs": 500.0},
     {"name": "surface", "start": None, "surface": True},
+    {"name": "surface_on_zone_edge_far_receiver", "start": "nl_exact", "surface": True, "gs": 0.0, "turn": 0, "trk": 90.0},
     {"name": "surface_eq", "start": (0.01, 100.0), "trk": 180.0, "gs": 30.0, "surface": True, "turn": 0},
     # repeated take-offs and landings next to the receiver (or with no receiver position at all): mixed surface/airborne
     # even/odd pairs, first contact at lift-off or touchdown
@@ -160,11 +161,31 @@ def gen_history(rng, scen_name=None, window=False):
             sgn = rng.choice((-1, 1))
             sc["start"] = (sgn * (tlat - 0.08), rng.uniform(-180, 180))
             sc["trk"] = 0.0 if sgn > 0 else 180.0
+        elif sc["start"] == "nl_exact":
+            # parked exactly ON a zone boundary (the even and the odd frame may quantise to different sides: no pair ever decodes),
+            # with the receiver 60-300 NM away - in the same quadrant, but far beyond the reach of a single-frame decode
+            if rx is None:
+                tlat = rng.choice([v_ for v_ in cpr.TRANS.values() if 10 < v_ < 75])
+                sgn = rng.choice((-1, 1))
+                sc["start"] = (sgn * tlat, rng.uniform(-180, 180))
+                if not no_rx:
+                    rx = cpr.destination(sc["start"][0], sc["start"][1], rng.choice((80, 100, 260, 280, rng.uniform(0, 360))), rng.uniform(60, 300))
+                sc["far"] = True
+            else:
+                # a receiver is already in place: a boundary 1 - 4.5 degrees of latitude (60 - 270 NM) north or south of it
+                near = [s_ * v_ for v_ in cpr.TRANS.values() for s_ in (1, -1) if 1.0 < abs(s_ * v_ - rx[0]) < 4.5 and 10 < v_ < 75]
+                if near:
+                    sc["start"] = (rng.choice(near), cprgen.wrap180(rx[1] + rng.uniform(-2.0, 2.0)))
+                    sc["far"] = True
+                else:
+                    sc["start"] = None
+        if sc["start"] is None:
+            sc["start"] = (rng.uniform(-75, 75), rng.uniform(-180, 180))
         if window:
             sgn = rng.choice((-1, 1))
             sc = {"name": "window", "start": (sgn * (87.0 - rng.uniform(0.0001, 0.0006)), rng.uniform(-180, 180)),
                   "trk": 0.0 if sgn > 0 else 180.0, "gs": rng.uniform(30, 90), "turn": 0}
-        if sc.get("surface") and rx is not None and not no_rx:
+        if sc.get("surface") and rx is not None and not no_rx and not sc.get("far"):
             # surface targets must stay within reach of the one receiver (premise of surface decoding)
             sc["start"] = cpr.destination(rx[0], rx[1], rng.uniform(0, 360), rng.uniform(0, 25))
         a = Ac(rng, sc)
